@@ -281,3 +281,264 @@ func fmtSlices(sl []tensor.Slice) string {
 	}
 	return "[" + strings.Join(parts, " ") + "]"
 }
+
+// c15PredViews: the predicates applied FROM NON-INITIAL STATES: to every slice/transpose view state (depth <= 2) of a
+// root that is unmasked, or carries a prior mask. The view's own elements are judged through At/MaskAt at every
+// coordinate (exactly the satisfying elements are marked; a hard mask only gains marks); the root's data is unchanged
+// and the mask bits of root elements that lie OUTSIDE the view keep their value.
+func c15PredViews(r *core.Run) {
+	quick := isQuick(r)
+	shapes := [][]int{{4}, {2, 3}, {2, 2, 2}}
+	if !quick {
+		shapes = append(shapes, []int{3, 2}, []int{3, 3}, []int{1, 4}, []int{4, 1})
+	}
+	preds := []string{"MaskedGreater", "MaskedInside", "MaskedEqual"}
+	if !quick {
+		preds = nil
+		for _, p := range maskPreds {
+			preds = append(preds, p.name)
+		}
+	}
+	r.SetBound("pred_view_graph", fmt.Sprintf("shapes %v x every slice/transpose view state to depth 2 x predicates %v x {float64, int32} x {unmasked root, root with prior mask 0101.., 0011..} x {hard, soft}", shapes, preds))
+	for _, d := range []ref.DT{ref.Float64, ref.Int32} {
+		for _, shape := range shapes {
+			n := ref.Prod(shape)
+			paths := atlas.ViewStates(shape, false, 2, true)
+			for _, pn := range preds {
+				var p maskPred
+				for _, q := range maskPreds {
+					if q.name == pn {
+						p = q
+					}
+				}
+				if !r.Take() {
+					continue
+				}
+				if r.Expired() {
+					return
+				}
+				for _, path := range paths {
+					for prior := 0; prior < 3; prior++ {
+						for _, soft := range []bool{false, true} {
+							path, prior, soft, p, d, shape := path, prior, soft, p, d, shape
+							id := fmt.Sprintf("C15|predvg|%s|%s|%s|%s|prior=%d|soft=%v", p.name, d.Name, shapeStr(shape), atlas.PathString(path), prior, soft)
+							if r.ReplayCase != "" && id != r.ReplayCase {
+								continue
+							}
+							r.Case(id, true, func() *core.Fail {
+								tensor.VerifResetPools()
+								vals := rampVals(d, n)
+								back := d.MakeSlice(n)
+								for i, v := range vals {
+									ref.SliceSet(back, i, v)
+								}
+								pm := make([]bool, n)
+								var rt *tensor.Dense
+								if prior > 0 {
+									for i := range pm {
+										if prior == 1 {
+											pm[i] = i%2 == 1
+										} else {
+											pm[i] = i%4 >= 2
+										}
+									}
+									rt = tensor.New(tensor.WithShape(shape...), tensor.WithBacking(back, append([]bool{}, pm...)))
+								} else {
+									rt = tensor.New(tensor.WithShape(shape...), tensor.WithBacking(back))
+								}
+								b := &atlas.Built{DT: d, Layout: "vg", T: rt, Root: back, RootT: rt, View: ref.RootC(shape)}
+								for _, st := range path {
+									var nb *atlas.Built
+									var res atlas.ApplyResult
+									if o := call(func() error { nb, res = b.Apply(st); return nil }); o.Class != "ok" || res.Class != "ok" {
+										return nil
+									}
+									b = nb
+								}
+								if cells, ok := b.APCells(); !ok || !ref.EqInts(cells, b.View.Cell) {
+									return nil // C02/C03 report states whose access pattern differs from the model
+								}
+								if prior > 0 && !b.T.IsMasked() {
+									return nil // c15ViewGraph reports a lost mask
+								}
+								if soft {
+									b.T.SoftenMask()
+								} else {
+									b.T.HardenMask()
+								}
+								x, y := d.Code(n/3), d.Code(n/3+n/2)
+								o := callPred(b.T, p.name, x, y)
+								r.Op(1)
+								r.Outcome("predvg:" + o.Class)
+								// DEFECT preconditions (see known_findings.jsonl F-C15-pred-view-window): the predicate kernels walk the
+								// view's raw storage window instead of its elements
+								win := len(b.View.Cell) > 0 && !isDenseWindow(b.View.Cell)
+								kf := func(f *core.Fail) *core.Fail {
+									if win {
+										f.Kind += "[KF:pred-view-window]"
+									}
+									return f
+								}
+								if o.Class != "ok" {
+									return (core.F("unexpected-refusal", "x", "%s on view state %s of a %v %s tensor (prior mask %d, soft %v): %s", p.name, atlas.PathString(path), shape, d.Name, prior, soft, o))
+								}
+								for i, v := range vals {
+									if !ref.Same(ref.SliceGet(back, i), v) {
+										return core.F("operand-changed", "data", "%s on view state %s changed root element %d", p.name, atlas.PathString(path), i)
+									}
+								}
+								inView := make([]bool, n)
+								i := 0
+								var fail *core.Fail
+								ref.ForCoords(b.View.Shape, func(c []int) {
+									if fail != nil {
+										return
+									}
+									cell := b.View.Cell[i]
+									i++
+									inView[cell] = true
+									want := p.f(vals[cell], x, y)
+									if !soft {
+										want = want || pm[cell]
+									}
+									var m bool
+									var e error
+									if oc := call(func() error { m, e = b.T.MaskAt(c...); return nil }); oc.Class != "ok" || e != nil {
+										fail = core.F("wrong-mask", "unreadable", "%s on view state %s: MaskAt(%v) failed: %v %s", p.name, atlas.PathString(path), c, e, oc)
+										return
+									}
+									if m != want {
+										fail = core.F("wrong-mask", fmt.Sprintf("c%d", i-1), "%s(%s,%s) on view state %s of a %v %s tensor %s (prior mask %s, soft %v): coordinate %v (value %s) masked=%v, expected %v", p.name, ref.Fmt(x), ref.Fmt(y), atlas.PathString(path), shape, d.Name, ref.FmtEls(vals), bitsOf(pm), soft, c, ref.Fmt(vals[cell]), m, want)
+									}
+								})
+								if fail != nil {
+									return fail
+								}
+								if prior > 0 {
+									rm := rt.Mask()
+									if len(rm) != n {
+										return core.F("wrong-mask", "rootlen", "%s on a view changed the root's mask length to %d", p.name, len(rm))
+									}
+									for c := 0; c < n; c++ {
+										if !inView[c] && rm[c] != pm[c] {
+											return kf(core.F("wrong-mask", fmt.Sprintf("outside%d", c), "%s(%s,%s) on view state %s of a %v %s tensor (soft %v): root element %d lies outside the view but its mask bit changed from %v to %v", p.name, ref.Fmt(x), ref.Fmt(y), atlas.PathString(path), shape, d.Name, soft, c, pm[c], rm[c]))
+										}
+									}
+								}
+								return nil
+							})
+						}
+					}
+				}
+			}
+		}
+	}
+}
+
+// isDenseWindow: the cells form the full interval [min, max] (the view covers its whole storage window).
+func isDenseWindow(cells []int) bool {
+	lo, hi := cells[0], cells[0]
+	for _, c := range cells {
+		if c < lo {
+			lo = c
+		}
+		if c > hi {
+			hi = c
+		}
+	}
+	return hi-lo+1 == len(cells)
+}
+
+// c15Values: the by-values predicate |a - x| <= atol + rtol*|x| for reference values of either sign and zero, hard
+// and soft, plus the two-argument form on elements that are either equal to the reference or far from it.
+func c15Values(r *core.Run) {
+	els := []float64{-3, -2.5, -2, -1.5, -1, -0.5, 0, 0.04, 0.5, 1, 1.05, 1.5, 2, 2.5, 3}
+	refs := []float64{1, -2, 0, -0.5, 2.5}
+	tols := [][2]float64{{0.1, 0.01}, {0.5, 0}, {0, 0.25}, {0.25, 0.5}}
+	r.SetBound("by_values", fmt.Sprintf("elements %v x reference %v x (rtol, atol) %v x {float32, float64} x {hard with prior mask, soft} + two-argument form", els, refs, tols))
+	for _, d := range []ref.DT{ref.Float32, ref.Float64} {
+		for _, x := range refs {
+			for ti := -1; ti < len(tols); ti++ {
+				for _, soft := range []bool{false, true} {
+					if !r.Take() {
+						continue
+					}
+					d, x, ti, soft := d, x, ti, soft
+					id := fmt.Sprintf("C15|values|%s|x=%v|tol=%d|soft=%v", d.Name, x, ti, soft)
+					if r.ReplayCase != "" && id != r.ReplayCase {
+						continue
+					}
+					r.Case(id, true, func() *core.Fail {
+						tensor.VerifResetPools()
+						n := len(els)
+						pm := make([]bool, n)
+						pm[1], pm[8] = true, true
+						var back interface{}
+						cv := func(f float64) interface{} {
+							if d.Name == "float32" {
+								return float32(f)
+							}
+							return f
+						}
+						if d.Name == "float32" {
+							b := make([]float32, n)
+							for i, e := range els {
+								b[i] = float32(e)
+							}
+							back = b
+						} else {
+							back = append([]float64{}, els...)
+						}
+						t := tensor.New(tensor.WithShape(n), tensor.WithBacking(back, append([]bool{}, pm...)))
+						if soft {
+							t.SoftenMask()
+						}
+						var o Outcome
+						var rtol, atol float64
+						if ti >= 0 {
+							rtol, atol = tols[ti][0], tols[ti][1]
+							o = call(func() error { return t.MaskedValues(cv(x), cv(rtol), cv(atol)) })
+						} else {
+							rtol = 0.001
+							o = call(func() error { return t.MaskedValues(cv(x), cv(rtol)) })
+						}
+						r.Op(1)
+						if o.Class != "ok" {
+							return core.F("unexpected-refusal", "x", "MaskedValues(%v, %v, %v) refused: %s", x, rtol, atol, o)
+						}
+						got := t.Mask()
+						for i, a := range els {
+							diff := a - x
+							if diff < 0 {
+								diff = -diff
+							}
+							ax := x
+							if ax < 0 {
+								ax = -ax
+							}
+							band := atol + rtol*ax
+							if ti < 0 {
+								// two-argument form: only elements equal to the reference or far from it are judged
+								if diff != 0 && diff < 0.01 {
+									continue
+								}
+								band = 1e-8
+							}
+							if d := diff - band; d > -1e-6 && d < 1e-6 && diff != 0 {
+								continue // on the edge of the band: rounding decides
+							}
+							want := diff <= band
+							if !soft {
+								want = want || pm[i]
+							}
+							if got[i] != want {
+								return core.F("wrong-mask", fmt.Sprintf("b%d", i), "MaskedValues(%v, rtol %v, atol %v) %s soft=%v on %v: mask %s, element %d (value %v, |a-x| = %v, band %v) should be %v", x, rtol, atol, d.Name, soft, els, bitsOf(got), i, a, diff, band, want)
+							}
+						}
+						return nil
+					})
+				}
+			}
+		}
+	}
+}
